@@ -266,6 +266,20 @@ class C13(Prop):
         Uset = uniq(U, "unfiltered")
         if U:
             w.count("probe.nonempty_unfiltered")
+        if haskey and "key" in base:
+            # without a pattern, an element that CARRIES the key (a string value) matches whatever that value is: every
+            # such element of the result for the default key is in the result for this key as well (elements without
+            # the key are left to the function: some report them with the value '', some leave them out)
+            o = list(obj) if isinstance(obj, list) else obj
+            try:
+                other = list(fn(o, **dict((k, v) for k, v in base.items() if k != "key")))
+            except Exception as x:
+                raise Violation("C13.raised", "%s:%s" % (name, type(x).__name__), "query without key raised %r" % (x,))
+            lost = [e for e in other if key in e and isinstance(e[key], str) and ident(e) not in Uset]
+            if lost:
+                raise Violation("C13.unfiltered_drops_keyed_element", "%s/%s" % (disc, key),
+                                "without a pattern, key=%r leaves out %d elements that carry the key (value %r ...)" % (
+                                    key, len(lost), lost[0][key]))
         byid = dict((ident(e), e) for e in U)
         # filter callback composes (all functions)
         import random
